@@ -303,6 +303,21 @@ pub async fn op_editor_roundtrip(sc: Value) -> Value {
                 }
             }
         }
+        // ---- publication is checked against the signed digests: a file with other content (same length) must be refused for a listed name
+        if let Some((name, content)) = model.values().flat_map(|r| r.targets.iter()).find(|(_, c)| !c.is_empty()) {
+            let mut other = content.clone();
+            other[0] ^= 0x5a;
+            let inp = indir.join("wrong-content");
+            std::fs::write(&inp, &other).unwrap();
+            let td2 = work.path().join("targets-wrong");
+            let tn = TargetName::new(name).unwrap();
+            let dest_parent: PathBuf = td2.join(if consistent { format!("{}.{}", hex::encode(sha(&other)), name) } else { name.clone() }).parent().unwrap().to_path_buf();
+            std::fs::create_dir_all(&dest_parent).unwrap();
+            let res = if link { signed.link_target(&inp, &td2, PathExists::Replace, Some(&tn)).await } else { signed.copy_target(&inp, &td2, PathExists::Replace, Some(&tn)).await };
+            if res.is_ok() {
+                push!(format!("a file whose SHA-256 differs from the signed digest of {name:?} was published under that name ({})", if link { "link_target" } else { "copy_target" }), &log);
+            }
+        }
         // ---- the client
         // (a) through the stock file transport: target names that need percent-encoding in a URL are requested under their ENCODED name
         if published {
